@@ -380,6 +380,125 @@ def weightedSum (vals edges : List α) : α :=
 
 end
 
+/-- `[{'name': self._name}]` -/
+def specPipelineNames' (name : String) : List String := [name]
+
+/-! ## Part C — value-level state machines (what the setters store, recompute eagerly, clear; what the getters fill)
+
+`CzernyTurnerSpectrometer` as a state machine over its *values*: parameters, the eagerly recomputed
+`_wavelength_to_pixel` / `_wavelengths` (`_update_wavelength_to_pixel`), the lazily filled spectral settings
+(`_min_wavelength/_max_wavelength/_spectral_bins`: cleared together by `_clear_spectral_settings`, filled together by
+`_update_spectral_settings` — kept as one optional record; the shape stream of K shows the three attributes are always
+written together) and `_pipeline_kwargs`.  Rejected assignments (`ValueError`) leave the state as it is. -/
+
+section
+variable {α : Type} [Add α] [Sub α] [Mul α] [Div α] [Neg α] [Zero α] [One α] [OfScientific α] [NatCast α]
+  [LT α] [LE α] [DecidableLT α] [DecidableLE α]
+
+structure CTParams (α : Type) where
+  order : Nat
+  grating : α
+  focal : α
+  spacing : α
+  /-- stored in radians (`np.deg2rad` is applied by the setter; the conversion is the harness's business) -/
+  angle : α
+  acc : List (α × Nat)
+  mbpp : Nat
+  name : String
+
+/-- external functions -/
+structure CTExt (α : Type) where
+  sqrt : α → α
+  cos : α → α
+  tan : α → α
+  ceil : α → Int
+
+structure CTState (α : Type) where
+  p : CTParams α
+  w2p : List (List α)
+  wavelengths : List (List α)
+  settings : Option (Settings α)
+  kwargs : Option (List String)
+
+inductive CTOp (α : Type) where
+  | setOrder (v : Nat) | setGrating (v : α) | setFocal (v : α) | setSpacing (v : α) | setAngle (v : α)
+  | setAcc (v : List (α × Nat)) | setMbpp (v : Nat) | setName (v : String)
+  | getMin | getMax | getBins | getW2p | getWavelengths | getKwargs
+  | calibrate (integrate : α → α → α) (specMin specMax : α)
+
+inductive CTOut (α : Type) where
+  | done
+  | valueError
+  | num (x : α)
+  | int (n : Int)
+  | arrays (a : List (List α))
+  | names (l : List String)
+
+/-- `_update_wavelength_to_pixel` as a function of the parameters -/
+def ctW2P (x : CTExt α) (p : CTParams α) : List (List α) :=
+  p.acc.map fun a =>
+    ctEdges (ctResolution x.sqrt (x.cos p.angle) (x.tan p.angle) p.grating (p.order : α) p.spacing p.focal) a.1 a.2
+
+/-- a setter that changes a diffraction parameter: store, recompute the arrays, clear the spectral settings -/
+def ctRefresh (x : CTExt α) (s : CTState α) (p : CTParams α) : CTState α :=
+  { s with p := p, w2p := ctW2P x p, wavelengths := (ctW2P x p).map centres, settings := none }
+
+/-- `__init__` (with the fix of DESIGN §6 #11) -/
+def ctFresh (x : CTExt α) (p : CTParams α) : CTState α :=
+  { p := p, w2p := ctW2P x p, wavelengths := (ctW2P x p).map centres, settings := none, kwargs := none }
+
+/-- the lazy getters `min_wavelength / max_wavelength / spectral_bins`: fill when empty -/
+def ctFill (x : CTExt α) (s : CTState α) : CTState α × Option (Settings α) :=
+  match s.settings with
+  | some st => (s, some st)
+  | none =>
+    match spectralSettings x.ceil s.w2p s.p.mbpp with
+    | some st => ({ s with settings := some st }, some st)
+    | none => (s, none)
+
+def accValid (v : List (α × Nat)) : Bool := v.all fun a => decide (0 < a.1) && decide (0 < a.2)
+
+def ctStep (x : CTExt α) (s : CTState α) : CTOp α → CTState α × CTOut α
+  | .setOrder v => if v = 0 then (s, .valueError) else (ctRefresh x s { s.p with order := v }, .done)
+  | .setGrating v => if v ≤ 0 then (s, .valueError) else (ctRefresh x s { s.p with grating := v }, .done)
+  | .setFocal v => if v ≤ 0 then (s, .valueError) else (ctRefresh x s { s.p with focal := v }, .done)
+  | .setSpacing v => if v ≤ 0 then (s, .valueError) else (ctRefresh x s { s.p with spacing := v }, .done)
+  | .setAngle v => if v ≤ 0 then (s, .valueError) else (ctRefresh x s { s.p with angle := v }, .done)
+  | .setAcc v => if accValid v then (ctRefresh x s { s.p with acc := v }, .done) else (s, .valueError)
+  | .setMbpp v => if v = 0 then (s, .valueError) else ({ s with p := { s.p with mbpp := v }, settings := none }, .done)
+  | .setName v => ({ s with p := { s.p with name := v }, kwargs := none }, .done)
+  | .getMin => match ctFill x s with
+    | (s', some st) => (s', .num st.minW)
+    | (s', none) => (s', .valueError)
+  | .getMax => match ctFill x s with
+    | (s', some st) => (s', .num st.maxW)
+    | (s', none) => (s', .valueError)
+  | .getBins => match ctFill x s with
+    | (s', some st) => (s', .int st.bins)
+    | (s', none) => (s', .valueError)
+  | .getW2p => (s, .arrays s.w2p)
+  | .getWavelengths => (s, .arrays s.wavelengths)
+  | .getKwargs => match s.kwargs with
+    | some k => (s, .names k)
+    | none => ({ s with kwargs := some (specPipelineNames' s.p.name) }, .names (specPipelineNames' s.p.name))
+  | .calibrate integ smin smax => match ctFill x s with
+    | (s', some st) => match calibrate integ smin smax st.minW st.maxW s'.w2p with
+      | some r => (s', .arrays r)
+      | none => (s', .valueError)
+    | (s', none) => (s', .valueError)
+
+def ctRun (x : CTExt α) (s : CTState α) (ops : List (CTOp α)) : CTState α :=
+  ops.foldl (fun s o => (ctStep x s o).1) s
+
+/-- `PolychromatorFilter.__init__`: the tabulated wavelengths are sorted (`np.argsort`), the range is (first, last) -/
+def filterOfTab (ws : List α) : Option (PFilter α) :=
+  let srt := ws.mergeSort (fun a b => decide (a ≤ b))
+  match srt.head?, srt.getLast? with
+  | some f, some l => some (filterOf f l)
+  | _, _ => none
+
+end
+
 /-- pipeline settings: `Spectrometer` has one spectral pipeline named after the instrument … -/
 def specPipelineNames (name : String) : List String := [name]
 /-- … `Polychromator` one mono pipeline per filter, named `instrument: filter`, carrying that filter -/
